@@ -294,7 +294,8 @@ class XYZPolyType(XYZPolyTypeBase):
 
 
 class ErrorStatisticsType(ErrorStatisticsTypeBase):
-    _child_xml_ns_key = {'CompositeSCP': 'sicommon', 'Components': 'sicommon', 'AdditionalParms': 'sicommon'}
+    _child_xml_ns_key = {
+        'CompositeSCP': 'sicommon', 'Components': 'sicommon', 'Unmodeled': 'sicommon', 'AdditionalParms': 'sicommon'}
 
 
 class RadiometricType(RadiometricTypeBase):
